@@ -139,11 +139,20 @@ def build_world(case):
         if case['notes'][i] is not None:
             o.note = case['notes'][i]
     other = WBS()
-    ext1 = Task(900, 'outside')            # detached external
-    ext2 = other // Task(901, 'in other wbs')
+    twin = case.get('ext_twin')
+    # an outside task may carry the id of a member (a vendor's task 2 next to our task 2)
+    ext1 = Task(objs[twin % len(objs)].id if twin is not None and objs else 900, 'outside')            # detached external
+    ext2 = other // Task(objs[(twin + 1) % len(objs)].id if twin is not None and objs else 901, 'in other wbs')
     b.other = other
     for i, kind in case['ext_links']:
         try:
+            if twin is not None:
+                # ... and the member of that id is linked to the same task as well
+                m_ = objs[(twin if kind == 'p1' else twin + 1) % len(objs)]
+                try:
+                    (objs[i].successors if kind == 's2' else objs[i].predecessors).append(m_)
+                except RuntimeError:
+                    pass
             if kind == 'p1':
                 objs[i].predecessors.append(ext1)
             elif kind == 'p2':
@@ -310,7 +319,7 @@ def gen_case(rnd):
     return {'kind': 'sheet', 'sched': sc, 'names': names, 'notes': notes, 'ext_links': ext, 'fields': fields,
             'children': rnd.random() < 0.65, 'theme': theme, 'target': rnd.choice(['wbs', 'task', 'list']),
             'pick': [rnd.randrange(50) for _ in range(rnd.randint(0, 5))] or [0], 'usage': rnd.random() < 0.4,
-            'remove_branch': rnd.randrange(20) if rnd.random() < 0.25 else None,
+            'remove_branch': rnd.randrange(20) if rnd.random() < 0.25 else None, 'ext_twin': rnd.randrange(20) if ext and rnd.random() < 0.4 else None,
             'print_colors': [[rnd.randrange(20), rnd.choice(['', '93m', None])] for _ in range(rnd.randint(0, 2))] if rnd.random() < 0.3 else []}
 
 
